@@ -32,6 +32,43 @@ def sumBals : List Int → Int
   | [] => 0
   | b :: bs => b + sumBals bs
 
+
+/-! ### L1b: which reward denoms a pool's hooks process, and what one pass of a hook does
+(x/masterchef/keeper/hooks_user_actions.go `GetRewardDenoms`, `AfterDepositPerReward` / `AfterWithdrawPerReward`) -/
+
+/-- the loop over `poolInfo.ExternalRewardDenoms`: a denom already in `seen` is skipped, a new one is listed and marked -/
+def extLoop : List String → List String → List String
+  | _, [] => []
+  | seen, d :: ds => if seen.contains d then extLoop seen ds else d :: extLoop (d :: seen) ds
+
+/-- `GetRewardDenoms` with the "already listed" set seeded by `seed`: the code seeds it with Eden and the chain's USDC denom
+(`GetBaseCurrencyDenom`, the asset-profile entry's `Denom`); the list starts with the base currency, then Eden if enabled -/
+def rewardDenomsSeeded (seed : List String) (base : String) (edenOn : Bool) (ext : List String) : List String :=
+  [base] ++ (if edenOn then ["ueden"] else []) ++ extLoop seed ext
+
+def rewardDenoms (base : String) (edenOn : Bool) (ext : List String) : List String :=
+  rewardDenomsSeeded ["ueden", base] base edenOn ext
+
+/-- a user's record for one (pool, reward denom) -/
+structure UR where
+  pending : Int
+  debt : Int
+deriving Repr, DecidableEq, Inhabited
+
+/-- one pass of `After{Deposit,Withdraw}PerReward`: the commitment ledger already shows `balAfter`; the balance the accrual is
+settled on is the one before the change (`balAfter + x`: `x > 0` shares withdrawn, `x < 0` deposited); the debt is re-based
+on the balance now -/
+def hookPass (acc balAfter x : Int) (u : UR) : UR :=
+  { pending := u.pending + pendingDelta acc (balAfter + x) u.debt, debt := debtOf acc balAfter }
+
+def hookPasses (acc balAfter x : Int) : Nat → UR → UR
+  | 0, u => u
+  | n + 1, u => hookPasses acc balAfter x n (hookPass acc balAfter x u)
+
+/-- `AfterWithdraw` / `AfterDeposit` over the pool's denom list: reward denom `d` gets one pass per occurrence in the list -/
+def hookOver (ds : List String) (d : String) (acc balAfter x : Int) (u : UR) : UR :=
+  hookPasses acc balAfter x (ds.count d) u
+
 /-! ### L2 solvency ledger (one reward denom) -/
 
 structure St where
